@@ -398,3 +398,8 @@ def run(ck):
                   "in the drain routine / the release path" if ok else
                   "`%s` in %s removes pending writes outside the drain routine and the release path: the bytes never reach the peer and their promises are never settled"
                   % ((e.get("t") or "")[:60], own.name))
+
+    ck.borrow("C07", ["C07-R3"], "C06-R10",
+              "a request to (re-)arm a descriptor always reaches epoll_ctl: the write interest that resumes a parked write is re-reported by "
+              "the kernel only because of that call, so everything queued on the connection depends on it",
+              key_pred=lambda k: k.startswith("Epoll::"), min_instances=3)
